@@ -230,8 +230,8 @@ impl Read {
         let root = fixture(ctx);
         let site = root.join("site");
         let mut hosts = Vec::new();
-        // 0: default extensions, default public dir, caches on; 1: Extensions::empty(); 2: custom public dir; 3: file cache off
-        for i in 0..4 {
+        // 0: default extensions, default public dir, caches on; 1: Extensions::empty(); 2: custom public dir; 3: file cache off; 4: fs disabled
+        for i in 0..5 {
             let mut ext = if i == 1 { Extensions::empty() } else { Extensions::new() };
             // a Prepare extension that never applies; evaluating its predicate shows that Prepare extensions were consulted
             ext.add_prepare_fn(
@@ -245,6 +245,11 @@ impl Read {
             let mut opts = host::Options::default();
             if i == 2 {
                 opts.set_public_data_dir("pubcustom");
+            }
+            if i == 4 {
+                // no file system at all (a host that only runs extensions, e.g. a reverse proxy): unsafe targets are refused
+                // before any extension sees them all the same — the internal `/./` routes depend on it
+                opts.disable_fs();
             }
             let mut h = Host::unsecure("localhost", site.to_str().unwrap(), ext, opts);
             if i == 3 {
@@ -262,7 +267,7 @@ impl Group for Read {
         "c01.rel"
     }
     fn rule(&self) -> &'static str {
-        "kvarn::handle_cache on a fixture tree (files inside public/, sentinel files beside and above it, a `..html`, a non-ASCII name, a custom public dir) for targets from the c01 alphabet x {GET, HEAD, POST, OPTIONS} x {default extensions, Extensions::empty(), custom public_data_dir, caches off}; the model predicts 400 / no-fs-path / the path relative to the public dir, which the harness resolves lexically in its own description of the tree to predict the content; oracle: the body never contains a sentinel marker and rejected targets are 400; non-trivial = the target contains a dot or an escape and is accepted"
+        "kvarn::handle_cache on a fixture tree (files inside public/, sentinel files beside and above it, a `..html`, a non-ASCII name, a custom public dir) for targets from the c01 alphabet x {GET, HEAD, POST, OPTIONS} x {default extensions, Extensions::empty(), custom public_data_dir, caches off, file system disabled}; the model predicts 400 / no-fs-path / the path relative to the public dir, which the harness resolves lexically in its own description of the tree to predict the content; oracle: the body never contains a sentinel marker and rejected targets are 400; non-trivial = the target contains a dot or an escape and is accepted"
     }
     fn parallel(&self) -> bool {
         false
@@ -280,7 +285,7 @@ impl Group for Read {
             "/%2e%2e%2fsecret-%ff.txt", "/%2E%2E%2Fsecret-%c0.txt", "/%2e%2e%2f%ff", "/a%2f%2e%2e%2f%2e%2e%2fsecret-%fe.txt", "/%2e%2e%2fsecret-%ff.txt%3F"];
         for t in fixed {
             for m in ["GET", "HEAD", "POST"] {
-                for h in 0..4 {
+                for h in 0..5 {
                     v.push(format!("c01.rel {h} {m} {}", hex(t.as_bytes())));
                 }
             }
@@ -291,7 +296,7 @@ impl Group for Read {
         for _ in 0..n {
             let m = *rng.pick(&["GET", "GET", "GET", "HEAD", "POST", "OPTIONS"]);
             let extra = if rng.chance(1, 3) { " R" } else { "" };
-            v.push(format!("c01.rel {} {m} {}{extra}", rng.below(4), hex(gen_target(rng, &TOKS).as_bytes())));
+            v.push(format!("c01.rel {} {m} {}{extra}", rng.below(5), hex(gen_target(rng, &TOKS).as_bytes())));
         }
         v
     }
